@@ -465,6 +465,24 @@ def reach_conds(n, anc, body=None):
     return out
 
 
+def matches_as_match(fn_body):
+    """`if matches!(S, P) { A } else { B }` read as `match S { P => A, _ => B }`: [(synthetic match, the inner `matches!`
+    match it replaces)] for every such `if` (with an else branch) in the body"""
+    out = []
+    for i in walk_k(fn_body, "If"):
+        if i.get("els") is None:
+            continue
+        c = unwrap(i["cond"])
+        if not (isinstance(c, dict) and c.get("k") == "Match" and len(c.get("arms", [])) == 2):
+            continue
+        a0, a1 = c["arms"]
+        if lit_value(a0["body"]) is True and lit_value(a1["body"]) is False and a1["pat"].get("k") == "Wild" and a1.get("guard") is None:
+            syn = {"k": "Match", "src": "IfMatches", "span": i.get("span"), "ty": i.get("ty"), "scrut": c["scrut"],
+                   "arms": [dict(a0, body=i["then"]), dict(a1, body=i["els"])]}
+            out.append((syn, c))
+    return out
+
+
 def virtual_arms(m):
     """the arms of a match, plus one derived arm per top-level `if C { X }` statement of an arm body: (same pattern,
     guard && C, body X).  `Ok(Event::End(e)) => { if e is A { .. } if e is B { .. } }` is read like two guarded arms."""
